@@ -1238,6 +1238,9 @@ def r919(ctx):
 
 
 def run(ctx):
+    ctx.rule("R-9.20", "an accepted path contains its shooting point: frame 0 of every propagation is the phase point it was started from, for every value of subcycles (in-process engines; shared with C12 R-12.23)", floor=2)
+    from . import c12 as _c12n
+    ctx.attempt(_c12n.frame_cadence, ctx, "R-9.20", " - shoot / wire fencing / the zero swaps paste segments assuming frame 0 is the start point: the accepted path does not contain its shooting point and has a hole of 3*subcycles-2 MD steps around it")
     ctx.rule("R-9.6", "a wire-fencing extension whose success flag is discarded is covered by a length test that rejects every truncated extension (linear arithmetic on lengths)", floor=1)
     ctx.rule("R-9.7", "positional role agreement in the move functions: (start, end, middle, cross), (success, status), (shooting_point, idx, dek), (n_frames, new_segment), (accept, paths, status) are unpacked / passed at the callee's positions", floor=20)
     ctx.rule("R-9.8", "the tests that decide whether a path end still needs extension compare the frame's order parameter with elements of the ensemble's own interfaces (not a cap / sub-ensemble / modified copy)", floor=2)
@@ -1288,6 +1291,7 @@ def run(ctx):
 
 
 VARIANTS = [
+    B("c09-turtle-first-frame-after-a-block", "infretis/classes/engines/turtlemdengine.py", "            if (i) % (self.subcycles) == 0:", "            if (i + 1) % (self.subcycles) == 0:", "R-9.20", control=True, why="seeded C09_n"),
     B("c09-end-point-from-last-order-component", PATH, "        if self.phasepoints[-1].order[0] <= left:", "        if self.phasepoints[-1].order[-1] <= left:", "R-9.19", control=True, why="seeded C09_m"),
     B("c09-run-md-minus-interface-or-false", TIS, '                picked[ens_num]["ens"]["tis_set"]["lambda_minus_one"],', '                picked[ens_num]["ens"]["tis_set"]["lambda_minus_one"] or False,', "R-9.18", control=True, why="seeded C09_l"),
     K("c09-keep-extender-bounds-through-locals", TIS, '    interfaces = ens_set["interfaces"]\n    # ensemble[\'system\'] = source_seg.phasepoints[0].copy()\n', '    interfaces = ens_set["interfaces"]\n    left, right = interfaces[0], interfaces[-1]\n', also=[(TIS, '    if interfaces[0] <= sh_pt.order[0] < interfaces[-1]:', '    if left <= sh_pt.order[0] < right:', 2)]),
